@@ -44,6 +44,11 @@ Verdict(rec) ==
         Count == Len(rec.K) >= 1 /\ (rec.flag = 1 => Len(rec.K) = 1)
         WF    == Got /\ Count /\ Shape /\ Over
         Sc(c) == ScoreFromCost(c, C, U)
+        \* second limb of a two-limb scheme H*(B,T) + (B2,T2): scores are compared as pairs <<limb1, limb2>>
+        Big  == rec.H > 0
+        C2   == Cost(D, rec.sch2[1], rec.sch2[2], U)
+        Sc2(c) == IF Big THEN ScoreFromCost(c, C2, U) ELSE 0
+        LexLeq(a1, a2, b1, b2) == a1 < b1 \/ (a1 = b1 /\ a2 <= b2)
         n     == Cardinality(U)
         OptV  == IF n <= 5 THEN Opt(C, U) ELSE OptDP(C, U)
         Complete == IsCompleteDS(D)
@@ -58,6 +63,7 @@ Verdict(rec) ==
                ELSE IF ~WF THEN <<"skip", "malformed-consensus">>
                ELSE IF rec.rep[3] # "ok" THEN <<"viol", "C04:absent-or-negative">>
                ELSE IF rec.rep[2] # 1 \/ \E k \in DOMAIN K : Sc(K[k]) # rec.rep[1] THEN <<"viol", "C04:score">>
+               ELSE IF Big /\ (rec.rep2[3] # "ok" \/ \E k \in DOMAIN K : Sc2(K[k]) # rec.rep2[1]) THEN <<"viol", "C04:score">>
                ELSE IF rec.rep0[3] = "ok" /\ (rec.rep0[1] # rec.rep[1] \/ rec.rep0[2] # 1)
                     THEN <<"viol", "C04:score">>
                ELSE <<"ok", "score">>
@@ -78,6 +84,7 @@ Verdict(rec) ==
                           /\ \A g, h \in DOMAIN P : g # h => P[g] \cap P[h] = {}
                           /\ UNION {P[g] : g \in DOMAIN P} = U
         V06 == IF ~Got THEN <<"skip", rec.out>>
+               ELSE IF ~WF /\ IsParCons(rec.cfg) THEN <<"viol", "C06:consensus-respects-partition">>
                ELSE IF ~WF THEN <<"skip", "malformed-consensus">>
                ELSE IF rec.opt = 1 /\ \E k \in DOMAIN K : Sc(K[k]) # OptV THEN <<"viol", "C06:flag-not-optimal">>
                ELSE IF ~IsParCons(rec.cfg) THEN <<"ok", "flag">>
@@ -95,14 +102,17 @@ Verdict(rec) ==
                ELSE <<"ok", "localopt">>
         \* ------------------------------------------------------------ C09
         St    == IF HasStarters(rec.cfg) THEN {RkOfJson(rec.starts[s]) : s \in DOMAIN rec.starts}
+                                              \cup {RkOfJson(rec.starts2[s]) : s \in DOMAIN rec.starts2}
                  ELSE {Unify(D[r], U) : r \in DOMAIN D} \cup {AllTied(U)}
         StOK  == \A s \in St : IsRanking(s) /\ Dom(s) = U
         V09 == IF ~IsBio(rec.cfg) THEN <<"skip", "not-bioconsert">>
                ELSE IF ~Got THEN <<"skip", rec.out>>
                ELSE IF ~WF THEN <<"skip", "malformed-consensus">>
                ELSE IF HasStarters(rec.cfg) /\ (Len(rec.starts) = 0 \/ ~StOK) THEN <<"skip", "starters-not-observed">>
-               ELSE IF \E k1, k2 \in DOMAIN K : Sc(K[k1]) # Sc(K[k2]) THEN <<"viol", "C09:same-score">>
-               ELSE IF \E k \in DOMAIN K, s \in St : Sc(K[k]) > Sc(s) THEN <<"viol", "C09:worse-than-start">>
+               ELSE IF \E k1, k2 \in DOMAIN K : Sc(K[k1]) # Sc(K[k2]) \/ Sc2(K[k1]) # Sc2(K[k2])
+                    THEN <<"viol", "C09:same-score">>
+               ELSE IF \E k \in DOMAIN K, s \in St : ~LexLeq(Sc(K[k]), Sc2(K[k]), Sc(s), Sc2(s))
+                    THEN <<"viol", "C09:worse-than-start">>
                ELSE <<"ok", "noworse">>
         \* ------------------------------------------------------------ C10
         Cands == {Unify(D[r], U) : r \in DOMAIN D}
